@@ -93,8 +93,11 @@ def init_twice(R, dud, drv, rng, tier, runs):
     env = dict(os.environ, XDG_CONFIG_HOME=os.path.join(base, "xdg"), HOME=base, LC_ALL="C")
     viol = []
     n = 0
-    for where in ("root", "sub"):
-        for with_cfg in (False, True):
+    for where, with_cfg, missing in [(w_, c_, m_) for w_ in ("root", "sub") for c_ in (False, True)
+                                     for m_ in (None, "config.yaml", "rclone.conf", ".gitignore", "index")]:
+        if missing and where == "sub" and not with_cfg:
+            continue
+        for _once in (0,):
             n += 1
             root = os.path.join(base, "p%d" % n)
             os.makedirs(os.path.join(root, "sub"))
@@ -106,6 +109,8 @@ def init_twice(R, dud, drv, rng, tier, runs):
             if with_cfg:
                 with open(os.path.join(root, ".dud", "config.yaml"), "a") as f:
                     f.write("remote: /somewhere/else\n")
+                with open(os.path.join(root, ".dud", "rclone.conf"), "a") as f:
+                    f.write("[s3]\ntype = s3\nprovider = Other\n")
             subprocess.run([dud, "stage", "add", "s.yaml"], cwd=root, env=env, stdout=subprocess.DEVNULL, stderr=subprocess.DEVNULL)
             subprocess.run([dud, "commit"], cwd=root, env=env, stdout=subprocess.DEVNULL, stderr=subprocess.DEVNULL)
 
@@ -116,14 +121,18 @@ def init_twice(R, dud, drv, rng, tier, runs):
                         q = os.path.join(dp, f)
                         out[os.path.relpath(q, root)] = hashlib.sha256(open(q, "rb").read()).hexdigest()
                 return out
+            if missing:
+                # one of the files `dud init` writes has gone missing (deleted by accident, not under version control …):
+                # everything that is still there is the project's index, configuration and cache
+                os.unlink(os.path.join(root, ".dud", missing))
             before = state()
             cwd = root if where == "root" else os.path.join(root, "sub")
             p = subprocess.run([dud, "init"], cwd=cwd, env=env, stdout=subprocess.PIPE, stderr=subprocess.PIPE)
             after = state()
-            R.count("init-%s-%s" % (where, with_cfg), True)
+            R.count("init-%s-%s-%s" % (where, with_cfg, missing), True)
             lost = [k for k in before if after.get(k) != before[k]]
             if lost:
-                viol.append(dict(where=where, edited_config=with_cfg, rc=p.returncode, changed=lost))
+                viol.append(dict(where=where, edited_config=with_cfg, missing_before_init=missing, rc=p.returncode, changed=lost))
     shutil.rmtree(base, ignore_errors=True)
     if viol:
         known = [f for f in vlib.load_findings() if f.get("property") == PROP and f.get("matcher") == "init-in-initialised-project"]
